@@ -54,7 +54,7 @@ Admit(S, a, b) ==
     /\ ValidRange(a, b)
     /\ (a..b) \cap S = {}
     /\ \/ S = {}
-       \/ a > MaxOf(S)
+       \/ (S # {} /\ a > MaxOf(S))
        \/ (a-1) \in S
        \/ (b+1) \in S
 AdmitFlags(S, a, b) == <<(a-1) \in S, (b+1) \in S>>
